@@ -8,6 +8,8 @@ mod lexer;
 #[cfg(test)]
 mod tests;
 mod validator;
+#[cfg(rasn_verif)]
+pub mod verif;
 
 use std::{
     borrow::Cow,
@@ -495,6 +497,18 @@ impl<B: Backend> Compiler<B, CompilerReady> {
             modules.append(
                 &mut asn_spec(src_unit)?
                     .into_iter()
+                    .inspect(|(_header, _tlds)| {
+                        #[cfg(rasn_verif)]
+                        verif::emit("lexed", || {
+                            format!(
+                                "\"module\":{},\"tagging\":\"{:?}\",\"extensibility\":\"{:?}\",\"defs\":{}",
+                                verif::s(&_header.name),
+                                _header.tagging_environment,
+                                _header.extensibility_environment,
+                                verif::list(_tlds.iter().map(|t| t.name().as_str()))
+                            )
+                        });
+                    })
                     .flat_map(|(header, tlds)| {
                         let header_ref = Rc::new(RefCell::new(header));
                         tlds.into_iter().map(move |mut tld| {
@@ -524,6 +538,16 @@ impl<B: Backend> Compiler<B, CompilerReady> {
                 modules
             },
         );
+        #[cfg(rasn_verif)]
+        for (name, module) in &modules {
+            verif::emit("group", || {
+                format!(
+                    "\"module\":{},\"defs\":{}",
+                    verif::s(name),
+                    verif::list(module.iter().map(|t| t.name().as_str()))
+                )
+            });
+        }
         for (_, module) in modules {
             let mut generated_module = self.backend.generate_module(module)?;
             if let Some(m) = generated_module.generated {
@@ -540,6 +564,14 @@ impl<B: Backend> Compiler<B, CompilerReady> {
     }
 
     fn output_generated(&self, generated: &str) -> Result<(), GeneratorError> {
+        #[cfg(rasn_verif)]
+        verif::emit("deliver", || {
+            format!(
+                "\"mode\":{},\"bytes\":{}",
+                verif::s(&format!("{:?}", self.state.output_mode)),
+                generated.len()
+            )
+        });
         match &self.state.output_mode {
             OutputMode::SingleFile(path) => {
                 let path = if path.is_dir() {
